@@ -1,7 +1,9 @@
 //! One module per family of properties.
 
 pub mod common;
+pub mod compiled;
 pub mod frontend;
+pub mod hygiene;
 pub mod lalr;
 pub mod misc;
 pub mod total;
@@ -10,7 +12,12 @@ use crate::engine::{Ctx, Failure};
 
 pub fn run(ctx: &Ctx) -> i32 {
     match ctx.prop.as_str() {
+        "C01" => compiled::run(ctx, compiled::Which::C01),
+        "C02" => compiled::run(ctx, compiled::Which::C02),
+        "C03" => compiled::run(ctx, compiled::Which::C03),
         "C04" => lalr::c04_run(ctx),
+        "C05" => hygiene::c05_run(ctx),
+        "C06" => hygiene::c06_run(ctx),
         "C07" => total::c07_run(ctx),
         "C14" => total::c14_run(ctx),
         "C08" => frontend::c08_run(ctx),
@@ -32,6 +39,7 @@ pub fn run(ctx: &Ctx) -> i32 {
 
 fn replay_fn(prop: &str) -> Option<fn(&serde_json::Value) -> Result<(), Failure>> {
     Some(match prop {
+        "C01" | "C02" | "C03" | "C05" | "C06" => lalr::c04_replay, // placeholder: dispatched in `replay` (needs ctx)
         "C04" => lalr::c04_replay,
         "C07" => total::c07_replay,
         "C14" => total::c14_replay,
@@ -70,7 +78,15 @@ pub fn replay(ctx: &Ctx, path: &str) -> i32 {
         }
     };
     let case = if v.get("case").is_some() { v["case"].clone() } else { v };
-    match f(&case) {
+    let result = match ctx.prop.as_str() {
+        "C01" => compiled::e2_replay(ctx, &case, compiled::Which::C01),
+        "C02" => compiled::e2_replay(ctx, &case, compiled::Which::C02),
+        "C03" => compiled::e2_replay(ctx, &case, compiled::Which::C03),
+        "C05" => hygiene::c05_replay(ctx, &case),
+        "C06" => hygiene::c06_replay(ctx, &case),
+        _ => f(&case),
+    };
+    match result {
         Ok(()) => {
             println!("REPLAY property={} result=pass", ctx.prop);
             0
